@@ -14,14 +14,14 @@ def Instr.pops : Instr → Nat
   | .stop => 0 | .bin _ => 2 | .iszero => 1 | .not => 1 | .addmod => 3 | .mulmod => 3 | .exp => 2 | .env _ => 0
   | .calldataload => 1 | .calldatacopy => 3 | .codecopy => 3 | .returndatasize => 0 | .returndatacopy => 3
   | .pop => 1 | .mload => 1 | .mstore => 2 | .mstore8 => 2 | .jump => 1 | .jumpi => 2 | .pc => 0 | .msize => 0 | .gas => 0
-  | .jumpdest => 0 | .mcopy => 3 | .push _ => 0 | .dup n => n | .swap n => n + 1 | .ret => 2 | .revert => 2
+  | .jumpdest => 0 | .mcopy => 3 | .keccak => 2 | .push _ => 0 | .dup n => n | .swap n => n + 1 | .ret => 2 | .revert => 2
   | .journal j => j.arity
 
 def Instr.pushes : Instr → Nat
   | .stop => 0 | .bin _ => 1 | .iszero => 1 | .not => 1 | .addmod => 1 | .mulmod => 1 | .exp => 1 | .env _ => 1
   | .calldataload => 1 | .calldatacopy => 0 | .codecopy => 0 | .returndatasize => 1 | .returndatacopy => 0
   | .pop => 0 | .mload => 1 | .mstore => 0 | .mstore8 => 0 | .jump => 0 | .jumpi => 0 | .pc => 1 | .msize => 1 | .gas => 1
-  | .jumpdest => 0 | .mcopy => 0 | .push _ => 1 | .dup n => n + 1 | .swap n => n + 1 | .ret => 0 | .revert => 0
+  | .jumpdest => 0 | .mcopy => 0 | .keccak => 1 | .push _ => 1 | .dup n => n + 1 | .swap n => n + 1 | .ret => 0 | .revert => 0
   | .journal _ => 0
 
 theorem exec_stack {env : IEnv World} {i : Instr} {s s' : IState World} (h : exec env i s = .next s') :
@@ -66,11 +66,11 @@ theorem words_cover {n : Nat} (h : toWordSize n * 32 < U64) : n ≤ toWordSize n
   · rw [if_neg hc]; omega
 
 /-- a row of a memory instruction: the expected size function and one of the two gas functions that charge for memory -/
-def memDyn (row : Row) : Prop := row.dyn = "pureMemoryGascost" ∨ row.dyn = "memoryCopierGas"
+def memDyn (row : Row) : Prop := row.dyn = "pureMemoryGascost" ∨ row.dyn = "memoryCopierGas" ∨ row.dyn = "gasKeccak256"
 
-theorem dynGas_mem_bound {name : String} (hd : name = "pureMemoryGascost" ∨ name = "memoryCopierGas")
+theorem dynGas_mem_bound {name : String} (hd : name = "pureMemoryGascost" ∨ name = "memoryCopierGas" ∨ name = "gasKeccak256")
     {st : List Word} {len last m c l : Nat} (h : dynGasOf name st len last m = .cost c l) : m ≤ memCeil := by
-  rcases hd with hd | hd <;> subst hd <;> simp only [dynGasOf] at h
+  rcases hd with hd | hd | hd <;> subst hd <;> simp only [dynGasOf] at h
   · simp at h
     cases hg : memoryGasCost len last m with
     | none => rw [hg] at h; cases h
@@ -83,13 +83,21 @@ theorem dynGas_mem_bound {name : String} (hd : name = "pureMemoryGascost" ∨ na
       cases hg : gasMcopy len last m w with
       | none => rw [hg] at h; cases h
       | some gl => obtain ⟨g, l'⟩ := gl; exact gasMcopy_bound hg
+  · simp at h
+    cases hb : back st 1 with
+    | none => rw [hb] at h; cases h
+    | some w =>
+      rw [hb] at h; dsimp only at h
+      cases hg : memoryGasCost len last m with
+      | none => rw [hg] at h; cases h
+      | some gl => obtain ⟨g, l'⟩ := gl; exact memoryGasCost_bound hg
 
 /-- after the dynamic part of a memory row the requested range lies inside memory, below the ceiling -/
 theorem dynPart_covers {op : Nat} {row : Row} {s s1 : IState World} (hd : memDyn row) (hm : row.mem ≠ "-")
     (h : dynPart op row s = .next s1) {msz : Nat} {ovf : Bool}
     (hs : memSizeOf row.mem s.stack = some (some (msz, ovf))) (hinv : s.mem.length ≤ memCeil) :
     ovf = false ∧ msz ≤ memCeil ∧ msz ≤ s1.mem.length ∧ s1.mem.length ≤ memCeil ∧ (msz = 0 → s1.mem = s.mem) := by
-  have hdash : row.dyn ≠ "-" := by rcases hd with h | h <;> rw [h] <;> decide
+  have hdash : row.dyn ≠ "-" := by rcases hd with h | h | h <;> rw [h] <;> decide
   unfold dynPart at h
   rw [if_neg hdash] at h
   unfold memPart at h
@@ -210,7 +218,7 @@ theorem memCopyGo_safe (store : Bytes) (dst src len : Nat) (hd : len = 0 ∨ (ds
 def memName : Instr → String
   | .mload => "memoryMLoad" | .mstore => "memoryMStore" | .mstore8 => "memoryMStore8"
   | .calldatacopy => "memoryCallDataCopy" | .codecopy => "memoryCodeCopy" | .returndatacopy => "memoryReturnDataCopy"
-  | .mcopy => "memoryMcopy" | .ret => "memoryReturn" | .revert => "memoryRevert" | _ => "-"
+  | .mcopy => "memoryMcopy" | .ret => "memoryReturn" | .revert => "memoryRevert" | .keccak => "memoryKeccak256" | _ => "-"
 
 /-- what Go guarantees about the frame's byte slices, and what the journal instructions need of their view -/
 structure EnvOK (env : IEnv World) : Prop where
@@ -469,6 +477,17 @@ theorem exec_safe (env : IEnv World) (hE : EnvOK env) (i : Instr) (s : IState Wo
       · rw [Nat.mod_eq_of_lt ho, Nat.mod_eq_of_lt hlU]; exact memGetPtr_inside _ _ _ (by omega) hinv
     simp only [exec, hl, hd, Out.notPanic, true_and]
     intro s' h; cases h
+  | keccak =>
+    obtain ⟨off, size, r, hl⟩ := ge2 (l := s.stack) (by simpa [Instr.pops] using hst)
+    obtain ⟨msz, ovf, hc⟩ : ∃ msz ovf, calcMemSize64 off size = (msz, ovf) := ⟨_, _, rfl⟩
+    obtain ⟨ho, _, hm⟩ := hcov msz ovf (by simp [memName, memSizeOf, hl, back, hc])
+    subst ho
+    obtain ⟨d, hd⟩ : ∃ d, memGetPtr s.mem (off % U64) (size % U64) = .ok d := by
+      rcases calcMemSize64_ok hc with ⟨h0, _⟩ | ⟨_, ho, hlU, he⟩
+      · subst h0; exact ⟨[], by simp [memGetPtr, toInt64]⟩
+      · rw [Nat.mod_eq_of_lt ho, Nat.mod_eq_of_lt hlU]; exact memGetPtr_inside _ _ _ (by omega) hinv
+    simp only [exec, hl, hd, IState.cont, Out.notPanic, true_and]
+    intro s' h; cases h; simp
   | journal j =>
     have ha : (s.stack.take j.arity).length = j.arity := by simp [Instr.pops] at hst; simp; omega
     have hnp := journal_no_panic j (s.stack.take j.arity) (env.mkEnv s.world s.mem) s.tr ha (hE.jenv _ _ hinv)
@@ -484,7 +503,7 @@ theorem exec_safe (env : IEnv World) (hE : EnvOK env) (i : Instr) (s : IState Wo
 
 /-- stack items a dynamic-gas function looks at -/
 def dynNeed (name : String) : Nat :=
-  if name = "memoryCopierGas" then 3 else if name = "gasExpFrontier" ∨ name = "gasExpEIP158" then 2 else 0
+  if name = "memoryCopierGas" then 3 else if name = "gasExpFrontier" ∨ name = "gasExpEIP158" ∨ name = "gasKeccak256" then 2 else 0
 
 /-- what the safety proof needs of a table row: the stack floor covers the operands of the execute function, of the
     dynamic-gas function and of the memory-size function; DUP/SWAP are wired to positive depths; a memory instruction
@@ -493,7 +512,7 @@ def rowSafe (row : Row) (i : Instr) : Bool :=
   decide (i.pops ≤ row.minStack) && decide (dynNeed row.dyn ≤ row.minStack) &&
   (match i with | .dup n => decide (1 ≤ n) | .swap n => decide (1 ≤ n) | _ => true) &&
   (row.mem == memName i) &&
-  (memName i == "-" || row.dyn == "pureMemoryGascost" || row.dyn == "memoryCopierGas")
+  (memName i == "-" || row.dyn == "pureMemoryGascost" || row.dyn == "memoryCopierGas" || row.dyn == "gasKeccak256")
 
 def TableSafe (env : IEnv World) : Prop :=
   ∀ op row i, env.table op = some row → decode row.exec op = some i → rowSafe row i = true
@@ -513,29 +532,41 @@ theorem memSizeOf_total (i : Instr) (st : List Word) (h : i.pops ≤ st.length) 
   case mcopy => obtain ⟨a, b, c, r, rfl⟩ := ge3 h; simp [memSizeOf, back]
   case ret => obtain ⟨a, b, r, rfl⟩ := ge2 h; simp [memSizeOf, back]
   case revert => obtain ⟨a, b, r, rfl⟩ := ge2 h; simp [memSizeOf, back]
+  case keccak => obtain ⟨a, b, r, rfl⟩ := ge2 h; simp [memSizeOf, back]
 
 theorem dynGasOf_total (name : String) (st : List Word) (a b m : Nat) (h : dynNeed name ≤ st.length) :
     dynGasOf name st a b m ≠ .stackPanic := by
   unfold dynNeed at h
   unfold dynGasOf
-  split
-  · split <;> simp
-  · split
-    · rename_i hn; rw [if_pos hn] at h
+  by_cases h1 : name = "pureMemoryGascost"
+  · rw [if_pos h1]; split <;> simp
+  · rw [if_neg h1]
+    by_cases h2 : name = "memoryCopierGas"
+    · rw [if_pos h2] at h ⊢
       obtain ⟨x, y, z, r, rfl⟩ := ge3 h
       simp only [back, List.getElem?_cons_succ, List.getElem?_cons_zero]
       split <;> simp
-    · rename_i hn
-      rw [if_neg hn] at h
-      split
-      · rename_i he; rw [if_pos (Or.inl he)] at h
+    · rw [if_neg h2] at h ⊢
+      by_cases h3 : name = "gasKeccak256"
+      · rw [if_pos h3]
+        rw [if_pos (Or.inr (Or.inr h3))] at h
         obtain ⟨x, y, r, rfl⟩ := ge2 h
-        simp [back]
-      · split
-        · rename_i he; rw [if_pos (Or.inr he)] at h
+        simp only [back, List.getElem?_cons_succ, List.getElem?_cons_zero]
+        (repeat' split) <;> simp
+      · rw [if_neg h3]
+        by_cases h4 : name = "gasExpFrontier"
+        · rw [if_pos h4]
+          rw [if_pos (Or.inl h4)] at h
           obtain ⟨x, y, r, rfl⟩ := ge2 h
           simp [back]
-        · split <;> simp
+        · rw [if_neg h4]
+          by_cases h5 : name = "gasExpEIP158"
+          · rw [if_pos h5]
+            rw [if_pos (Or.inr (Or.inl h5))] at h
+            obtain ⟨x, y, r, rfl⟩ := ge2 h
+            simp [back]
+          · rw [if_neg h5]
+            split <;> simp
 
 theorem dynPart_notPanic {op : Nat} {row : Row} {i : Instr} {s : IState World} (hs : rowSafe row i = true)
     (hmin : row.minStack ≤ s.stack.length) : (dynPart op row s).notPanic := by
@@ -607,10 +638,11 @@ theorem pre_execSafe {env : IEnv World} (hT : TableSafe env) (hE : EnvOK env) {s
         · have := dynPart_nomem (by rw [hmem, hname]) hdp
           unfold Inv; rw [this]; exact hinv
       · have hmd : memDyn row := by
-          rcases hdyn with (h | h) | h
+          rcases hdyn with ((h | h) | h) | h
           · exact absurd h hname
           · exact Or.inl h
-          · exact Or.inr h
+          · exact Or.inr (Or.inl h)
+          · exact Or.inr (Or.inr h)
         have hmne : row.mem ≠ "-" := by rw [hmem]; exact hname
         constructor
         · intro msz ovf hms
@@ -624,7 +656,7 @@ theorem pre_execSafe {env : IEnv World} (hT : TableSafe env) (hE : EnvOK env) {s
           | none =>
             -- impossible: a memory instruction's size function is one of the modelled names
             unfold dynPart memPart at hdp
-            have hdash : row.dyn ≠ "-" := by rcases hmd with h | h <;> rw [h] <;> decide
+            have hdash : row.dyn ≠ "-" := by rcases hmd with h | h | h <;> rw [h] <;> decide
             rw [if_neg hdash, if_neg hmne, hms] at hdp
             cases hdp
           | some o =>
